@@ -2,6 +2,7 @@
 import json, os, re, shutil, sys, time
 sys.path.insert(0, os.path.dirname(os.path.abspath(__file__)))
 import vlib
+import election_stage
 
 PID = "C15"
 GUARDS = ["G_UsableHighQC", "G_HighestWins", "G_SafeNodeLive"]
@@ -62,6 +63,7 @@ def main(tier):
             stuck = [x for x in e["rounds"] if x["leaderHonest"] and len(x["inRound"]) == 3 and x["aligned"] and not x["committed"]]
             v.violation(key, "prefix '%s', Byzantine validator '%s', delay %d ms: %d synchronous round(s) led by an honest validator with all honest replicas taking part did not commit (e.g. round %s led by %s); committed=%s after %d rounds (%d runs)"
                         % (e["prefix"], e["byz"], e["delta"], len(stuck), stuck[0]["r"] if stuck else "?", stuck[0]["leader"] if stuck else "?", e["committed"], e["roundsToCommit"], len(items)), {"run": e})
+        el = election_stage.run(v, work, tier, sd)
         hist, sync_rounds, byzled = {}, 0, 0
         for e in recs:
             hist[e["roundsToCommit"]] = hist.get(e["roundsToCommit"], 0) + 1
@@ -76,9 +78,11 @@ def main(tier):
                     "rounds_to_commit_histogram": {str(k): hist[k] for k in sorted(hist)}, "synchronous_honest_rounds_checked": sync_rounds, "rounds_led_by_byzantine": byzled,
                     "runs_without_commit": sum(1 for e in recs if not e["committed"]), "violation_classes": {k: len(x) for k, x in classes.items()},
                     "known_findings_reproduced": [k for k, _ in v.known], "samples": [{k: e[k] for k in e if k != "notes"} for e in recs[:2]]}
+        coverage.update(el)
         vlib.write_evidence(PID, tier, "model_checking", coverage, time.time() - t0, len(v.violations),
                             ["bounded liveness as a per-round obligation (a synchronous honest-led round commits); the number of rounds until such a round exists depends on sortition and on the timeout growth and is reported, not bounded",
                              "4 validators of equal power, default timeouts, delays up to 420 ms, start skew up to one round; the controller (proposal production / validation) is scripted",
+                             "leader election: the choice among received candidates and the stake-weighted fallback are recomputed by TLC for the real code's answers; the sortition threshold itself (who may become a candidate) is numeric and out of the model",
                              "TLC checks the round as one macro step from every prefix outcome; it does not model the clock"])
         print("C15 %s: design %d states; %d real runs on a virtual clock, %d synchronous honest-led rounds checked, rounds-to-commit %s; classes %s"
               % (tier, rd.distinct, len(recs), sync_rounds, {k: hist[k] for k in sorted(hist)}, {k: len(x) for k, x in classes.items()}))
